@@ -109,7 +109,22 @@ PLAN11 = {
  'WBI-m1': ('I', ['C20']), 'WBI-m2': ('I', ['C20']),
  'WBJ-m1': ('J', ['C03']), 'WBJ-m2': ('J', ['C03']),
 }
+PLAN12 = {
+ 'WCA-m1': ('A', ['C06']), 'WCA-m2': ('A', ['C06']),
+ 'WCB-m1': ('B', ['C20']), 'WCB-m2': ('B', ['C20']),
+ 'WCC-m1': ('C', ['C12']), 'WCC-m2': ('C', ['C12']),
+ 'WCD-m1': ('D', ['C03']), 'WCD-m2': ('D', ['C03']),
+ 'WCE-m1': ('E', ['C04']), 'WCE-m2': ('E', ['C04']),
+ 'WCF-m1': ('F', ['C07']), 'WCF-m2': ('F', ['C07']),
+ 'WCG-m1': ('G', ['C19']), 'WCG-m2': ('G', ['C19']),
+ 'WCH-m1': ('H', ['C05']), 'WCH-m2': ('H', ['C05']),
+ 'WCI-m1': ('I', ['C09']), 'WCI-m2': ('I', ['C09']),
+ 'WCJ-m1': ('J', ['C10']), 'WCJ-m2': ('J', ['C10']),
+}
 SRC = {}
+for k, (d, checks) in PLAN12.items():
+    PLAN[k] = checks
+    SRC[k] = f'/tmp/mut12-{d}/out/{k.split("-")[1]}'
 for k, (d, checks) in PLAN11.items():
     PLAN[k] = checks
     SRC[k] = f'/tmp/mut11-{d}/out/{k.split("-")[1]}'
